@@ -50,6 +50,9 @@ KIND_SIG = {
     "type-param-in-nested-function-of-generic": "lower:closure-in-generic-keeps-type-param",
     "type-param-in-closure-env-of-generic": "lower:closure-in-generic-keeps-type-param",
     "struct-missing-init-undeclared": "sema:literal-of-undeclared-struct-accepted",
+    "struct-missing-init:declared-in-toplevel-statement": "lower:struct-in-toplevel-statement-not-lowered",
+    "struct-missing-init:declaration-removed-by-optimizer": "opt:struct-declaration-removed-as-dead-code",
+    "generic-callee-not-instantiated:type-param-not-in-any-parameter": "mono:type-param-in-no-parameter-cannot-be-inferred",
     "generic-closure-callee-not-instantiated": "mono:generic-closure-env-shifts-argument-pairing",
     "generic-closure-call-wrong-instance": "mono:generic-closure-env-shifts-argument-pairing",
     "generic-callee-not-instantiated:type-param-named-like-builtin": "sema:type-param-named-like-builtin-read-as-builtin",
